@@ -40,11 +40,23 @@ def _check_ports(op, ins, outs, tag, h=None, node=None):
                 sym.check(f"{tag}:hugr_port_kind_type", h.port_kind(port) == k and h.port_type(port) == (k.ty if isinstance(k, tys.ValueKind) else None))
 
 
-@lemma("C06", bounds="rows of 0..2 (quick) / 0..3 (thorough) distinct atoms; every port offset -1..len-1 symbolic")
+def _set_outputs_twice(op, first, final):
+    """Outputs may be set more than once (builders call set_outputs again): set another row first, query everything that is derived
+    from it, then set the final row - nothing derived from the first row may survive."""
+    op._set_out_types(first)
+    for q in (lambda: op.outer_signature(), lambda: op.inner_signature(), lambda: op.num_out, lambda: op.signature, lambda: op.outputs):
+        try:
+            q()
+        except Exception:  # noqa: BLE001  (not every class has every attribute)
+            pass
+    op._set_out_types(final)
+
+
+@lemma("C06", bounds="rows of 0..2 (quick) / 0..3 (thorough) distinct atoms; every port offset -1..len-1 symbolic; outputs set twice (another row first, queried, then the final row)")
 def dfg_signature():
     i, o = row("i"), row("o")
     op = ops.DFG(i)
-    op._set_out_types(o)
+    _set_outputs_twice(op, [tys.Qubit, *o], o)
     sym.check("dfg_outer_is_body", op.outer_signature() == ft(i, o) and op.inner_signature() == ft(i, o))
     sym.check("dfg_num_out", op.num_out == len(o))
     _check_ports(op, i, o, "dfg")
@@ -69,7 +81,7 @@ def conditional_signature():
 def tailloop_signature():
     ji, jo, rest = row("ji"), row("jo"), row("r")
     op = ops.TailLoop(ji, rest)
-    op._set_out_types([tys.Sum([ji, jo]), *rest])
+    _set_outputs_twice(op, [tys.Sum([ji, [tys.Qubit, *jo]]), *rest], [tys.Sum([ji, jo]), *rest])
     sym.check("loop_outer_in_is_just_inputs_plus_rest", op.outer_signature().input == [*ji, *rest])
     sym.check("loop_outer_out_is_just_outputs_plus_rest", op.outer_signature().output == [*jo, *rest])
     sym.check("loop_body_in", op.inner_signature().input == [*ji, *rest])
@@ -85,7 +97,7 @@ def block_signature():
     ins, other = row("i", 2), row("x", 2)
     s = tys.Sum(rows)
     op = ops.DataflowBlock(ins)
-    op._set_out_types([s, *other])
+    _set_outputs_twice(op, [tys.Sum([*rows, [tys.Qubit]]), tys.Qubit, *other], [s, *other])
     sym.check("block_body_signature", op.inner_signature() == ft(ins, [s, *other]))
     sym.check("block_num_out_is_successor_count", op.num_out == nv)
     if nv > 0:
@@ -258,10 +270,10 @@ def leaf_dataflow_ops():
         nop = ops.Noop(i[0])
         sym.check("noop_identity", nop.outer_signature().input == [i[0]] and nop.outer_signature().output == [i[0]] and nop.num_out == 1)
     case = ops.Case(i)
-    case._set_out_types(o)
+    _set_outputs_twice(case, [tys.Qubit, *o], o)
     sym.check("case_inner_signature", case.inner_signature() == ft(i, o))
     fd = ops.FuncDefn("f", i)
-    fd._set_out_types(o)
+    _set_outputs_twice(fd, [tys.Qubit, *o], o)
     kf = fd.port_kind(OutPort(Node(1), 0))
     sym.check("funcdefn_offers_function", isinstance(kf, tys.FunctionKind) and kf.ty == tys.PolyFuncType([], ft(i, o)) and fd.inner_signature() == ft(i, o))
 
